@@ -60,14 +60,17 @@ std::string canon(const osmium::OSMObject& o, bool meta) {
 std::vector<Obj> dataset() {
     std::vector<Obj> d;
     for (int i = 1; i <= 4; ++i) {
-        Obj o{'n', i * 10, static_cast<uint32_t>(i), 100u + i, 7u + i, 1420070400u + i, "user" + std::to_string(i), {}};
+        // user names of different lengths: up to 5 bytes fit the space every object has, longer ones make set_user() reserve more
+        // (a buffer can grow exactly there)
+        static const char* const users[4] = {"user1", "a-much-longer-user-name-2", "u", "user-name-of-medium-len"};
+        Obj o{'n', i * 10, static_cast<uint32_t>(i), 100u + i, 7u + i, 1420070400u + i, users[i - 1], {}};
         if (i != 2) o.tags.push_back({"k" + std::to_string(i), "value number " + std::to_string(i)});
         if (i == 3) o.tags.push_back({"name", "x y"});
         o.x = 10000000 * i + 1; o.y = -5000000 * i - 3;
         d.push_back(o);
     }
     for (int i = 1; i <= 4; ++i) {
-        Obj o{'w', i * 7, 1u, 200u + i, 9u, 1420080000u + i, "w", {}};
+        Obj o{'w', i * 7, 1u, 200u + i, 9u, 1420080000u + i, i % 2 ? "w" : "way-user-name", {}};
         o.tags.push_back({"highway", i % 2 ? "primary" : "secondary"});
         for (int k = 0; k < i + 1; ++k) o.refs.push_back(10 * (1 + k % 4));
         d.push_back(o);
